@@ -15,13 +15,14 @@ package jobqueuecontroller
 //@     jwKind[i] == 3 && jwObj[i] != nil && jwObj[i] != rj
 //@  && jwObj[i].Name == rj.Name && jwObj[i].Namespace == rj.Namespace && jwObj[i].UID == rj.UID
 //@  && jwObj[i].Spec == rj.Spec && jwObj[i].Status.Phase == rj.Status.Phase
-//@  && jwObj[i].Status.StartTime != nil && ns(jwObj[i].Status.StartTime.Time) == clock
+//@  && jwObj[i].Status.StartTime != nil
 
 //@ func JobControl.StartJob
 //@   tags C05, C07, C11
 //@   requires c != nil && rj != nil
 //@   modifies jwN, jwKind, jwObj, jwOK, clock
 //@   ensures [C05,C07,C11] exactly-one-start-write: jwN == old(jwN) + 1 && isStartWrite(old(jwN), rj)
+//@   ensures [C07,C11] start-time-is-now: ns(jwObj[old(jwN)].Status.StartTime.Time) == clock && clock >= old(clock)
 //@   ensures [C05,C20] error-iff-write-failed: (result == nil) == jwOK[old(jwN)]
 //@   ensures [C05] log-append-only: forall i int :: i < old(jwN) ==> jwKind[i] == old(jwKind[i]) && jwObj[i] == old(jwObj[i]) && jwOK[i] == old(jwOK[i])
 //@   ensures [C11] cached-object-untouched: *rj == old(*rj)
@@ -78,6 +79,7 @@ package jobqueuecontroller
 
 //@ func PerConfigReconciler.startJob
 //@   tags C05, C06, C20
+//@   requires [C05] below-limit: (policyOf(rj) == execution.ConcurrencyPolicyForbid || policyOf(rj) == execution.ConcurrencyPolicyEnqueue) ==> oldCount + 1 <= maxConc(rjc)
 //@   requires w != nil && rjc != nil && rj != nil && typeis(w.client, *JobControl) && unbox(w.client, *JobControl) != nil
 //@   requires typeis(store, *activejobstore.Store) && activejobstore.stwf(storeOf(store))
 //@   modifies jwN, jwKind, jwObj, jwOK, clock, smHas, smVal, heap(utilatomic.counterNode)
@@ -113,3 +115,19 @@ package jobqueuecontroller
 //@        && !(policyOf(rj) == execution.ConcurrencyPolicyEnqueue && activeCount + 1 > maxConc(rjc)) ==> result0
 //@   ensures [C06] log-append-only: forall i int :: i < old(jwN) ==> jwKind[i] == old(jwKind[i]) && jwObj[i] == old(jwObj[i]) && jwOK[i] == old(jwOK[i])
 //@   ensures [C06] error-means-no-start: result1 != nil ==> !result0
+
+
+// ---- listing and the per-JobConfig pass ------------------------------------------------------------------------------
+
+//@ pure created(rj *execution.Job) Int = ns(rj.CreationTimestamp.Time)
+
+//@ func PerConfigReconciler.listQueuedJobsForJobConfig
+//@   tags C06
+//@   requires w != nil && rjc != nil
+//@   loop 1 invariant -1 <= rangeindex && rangeindex < len(jobs)
+//@   loop 1 invariant forall k int :: 0 <= k && k < len(rjobs) ==> rjobs[k] != nil && allocated(rjobs[k]) && job.IsQueued(rjobs[k])
+//@        && rjobs[k].Namespace == rjc.Namespace && rjobs[k].Labels[jobconfig.LabelKeyJobConfigUID] == string(rjc.UID)
+//@   ensures [C06] only-queued-jobs-of-this-config: result1 == nil ==> (forall k int :: 0 <= k && k < len(result0) ==> result0[k] != nil && allocated(result0[k])
+//@        && job.IsQueued(result0[k]) && result0[k].Namespace == rjc.Namespace && result0[k].Labels[jobconfig.LabelKeyJobConfigUID] == string(rjc.UID))
+//@   ensures [C06] oldest-first: result1 == nil ==> (forall a int, b int :: 0 <= a && a < b && b < len(result0) ==> created(result0[a]) <= created(result0[b]))
+//@   ensures [C06] cache-untouched: forall p *execution.Job :: !fresh(p) ==> *p == old(*p)
